@@ -22,7 +22,9 @@ VARIABLES rules, path, trailing, cert, out
 vars == <<rules, path, trailing, cert, out>>
 \* percent-decoding of a token into decoded segments
 Dec(t) == CASE t = "%2e%2e" -> <<"..">> [] t = "%2E" -> <<".">> [] t = "app%2fsecret.gmi" -> <<"app", "secret.gmi">>
-            [] t = "%61pp" -> <<"app">> [] OTHER -> <<t>>
+            [] t = "%61pp" -> <<"app">>
+            \* double-encoded spellings: ONE decoding step gives a single, literal name (which does not exist in the capsule)
+            [] t = "app%252fsecret.gmi" -> <<"app%2fsecret.gmi">> [] t = "%252e%252e" -> <<"%2e%2e">> [] OTHER -> <<t>>
 RECURSIVE Flat(_)
 Flat(p) == IF p = <<>> THEN <<>> ELSE Dec(Head(p)) \o Flat(Tail(p))
 \* ---- what the handler serves: resolution of the decoded path below the document root ------------------
